@@ -294,6 +294,36 @@ def _check_one(i: int):
     solver = 'z3'
     model = None
     reason = None
+    if 'canary' in ob.tags:
+        # vacuity probe: is the path condition satisfiable at this exit? (short budget; unknown counts as not refuted)
+        from .core import _has_quantifier as _hq
+        s0 = z3.Solver()
+        s0.set('timeout', 2000)
+        for a in ground_ax:
+            s0.add(a)
+        for p in ob.pc:
+            if not _hq(p):
+                s0.add(p)
+        r0 = s0.check()
+        if r0 == z3.unsat:
+            return i, 'unsat', None, time.time() - t0, 'z3', None
+        if all(not _hq(p) for p in ob.pc):
+            return i, ('sat' if r0 == z3.sat else 'unknown'), None, time.time() - t0, 'z3', None
+        s1, r1 = _solve(ob, ground_ax, [], 2000)
+        return i, ('unsat' if r1 == z3.unsat else 'sat' if r1 == z3.sat else 'unknown'), None, time.time() - t0, 'z3', None
+    # phase 0: only the quantifier-free part of the path condition (fewer assumptions: unsat is sound) - most obligations need no more
+    from .core import _has_quantifier
+    qf_pc = [p for p in ob.pc if not _has_quantifier(p)]
+    if len(qf_pc) < len(ob.pc):
+        s0 = z3.Solver()
+        s0.set('timeout', min(_TIMEOUT_MS, 3000))
+        for a in ground_ax:
+            s0.add(a)
+        for p in qf_pc:
+            s0.add(p)
+        s0.add(z3.Not(ob.goal))
+        if s0.check() == z3.unsat:
+            return i, 'unsat', None, time.time() - t0, 'z3 (quantifier-free slice)', None
     # phase 1: quantifier-free axioms + ground injectivity instances (fewer axioms: unsat is sound, sat is a candidate)
     s, r = _solve(ob, ground_ax, _ground_injectivity(list(ob.pc) + [ob.goal]) if quant_ax else [], _TIMEOUT_MS)
     cand_model = None
